@@ -77,6 +77,25 @@ CoversExactly(cover, claim) ==
   /\ SeqRange(cover) = claim
   /\ Len(cover) = Cardinality(claim)
 
+(* ----------------------------- contraction around a region ------------- *)
+\* pos = <<xmin, xmax, ymin, ymax>>: the boundary lines when the scheme returned; t = <<x0, x1, y0, y1>>: the rectangle
+\* bounding the `around` sites; nst: steps taken from each side (same order); sides: the directions of the sequence.
+\* Every side is measured against ITS OWN bound of the region.
+ReachedSide(d, pos, t) ==
+  CASE d = "xmin" -> pos[1] >= t[1] - 1
+    [] d = "xmax" -> pos[2] <= t[2] + 1
+    [] d = "ymin" -> pos[3] >= t[3] - 1
+    [] d = "ymax" -> pos[4] <= t[4] + 1
+    [] OTHER      -> FALSE
+\* the boundary hugs the region: every listed side was contracted up to the region, unless the loop stopped because an
+\* axis came within max_separation (documented stop rule, also active with `around`)
+HugsRegion(sides, pos, t, msep) ==
+  \A k \in DOMAIN sides : ReachedSide(sides[k], pos, t) \/ pos[2] - pos[1] <= msep \/ pos[4] - pos[3] <= msep
+\* no side that moved went into the region
+NotPastRegion(pos, t, nst) ==
+  /\ (nst[1] = 0 \/ pos[1] <= t[1] - 1) /\ (nst[2] = 0 \/ pos[2] >= t[2] + 1)
+  /\ (nst[3] = 0 \/ pos[3] <= t[3] - 1) /\ (nst[4] = 0 \/ pos[4] >= t[4] + 1)
+
 (* ----------------------------- values ---------------------------------- *)
 AbsI(a) == IF a < 0 THEN -a ELSE a
 \* an observed value (snapped to the Gaussian integers by the driver, relative tolerance 1e-6) is the exact value z:
